@@ -46,6 +46,12 @@ def build(ctx, rule):
 
     g.raw = {k: getattr(g, k) for k in ("add_edge", "remove_edge", "remove_node", "add_node", "read_graph", "write_gfa")}
     g.read_graph = tail_inlined(repo, g.read_graph, keep=lambda c: c.name in ("add_edge", "add_node"))
+    from ..core import desugar_ifexp, fold_consts, hoist_calls
+
+    # the writer: private emitter helpers inlined (also out of `f(a) + f(b)`), specialised on constant arguments
+    from ..core import inline_access_aliases
+
+    g.write_gfa = inline_access_aliases(desugar_ifexp(fold_consts(tail_inlined(repo, hoist_calls(repo, g.write_gfa), keep=lambda c: not c.name.startswith("_") or c.name.startswith("__")))))
     for k in ("remove_edge", "remove_node", "add_node"):
         setattr(g, k, unroll_const_loops(tail_inlined(repo, getattr(g, k), keep=lambda c: c.name in ("add_edge", "remove_edge", "add_node", "remove_node") or c.name.startswith(("add_from_", "remove_from_")))))
     return g
